@@ -110,10 +110,30 @@ FORBIDDEN = re.compile(r'\b(Admitted|admit|Axiom|Parameter|Conjecture|Admit Obli
                        r'Unset Guard|bypass_check|type-in-type|impredicative-set')
 
 
-def grep_gate():
-    """Reject forbidden vernacular anywhere in the development."""
+def require_closure(roots):
+    """Files (relative to coq/) reachable from `roots` through `From VT Require ...` lines."""
+    seen, todo = set(), list(roots)
+    while todo:
+        f = todo.pop()
+        if f in seen or not os.path.exists(os.path.join(common.COQ, f)):
+            continue
+        seen.add(f)
+        txt = strip_comments(open(os.path.join(common.COQ, f)).read())
+        for m in re.finditer(r"From\s+VT\s+Require\s+(?:Import|Export)?\s*((?:[A-Za-z_][\w']*(?:\.[A-Za-z_][\w']*)*\s*)+)\.", txt):
+            for mod in m.group(1).split():
+                todo.append(mod.replace('.', '/') + '.v')
+    return seen
+
+
+def grep_gate(roots=None):
+    """Reject forbidden vernacular.  With `roots` (paths relative to coq/): in the Require-closure
+    of those files, i.e. in everything the property's theorems and checkers depend on; without:
+    in the whole development (setup.sh and the final audit use that form)."""
     hits = []
+    only = require_closure(roots) if roots else None
     for f in sorted(glob.glob(os.path.join(common.COQ, '**', '*.v'), recursive=True)):
+        if only is not None and os.path.relpath(f, common.COQ) not in only:
+            continue
         txt = strip_comments(open(f).read())
         for i, line in enumerate(txt.split('\n'), 1):
             if FORBIDDEN.search(line):
